@@ -35,9 +35,10 @@ RULE = ("(M) exhaustive TLC run of Legacy.tla over the plan families of the tier
         "assumptions. (G) the same exploration prints one replay case per collection of each family; -simulate adds finished "
         "collections of 1-3 configurations x up to 8 lines x 1-2 measurements (3 names, 3 units, label groups, value sets with an "
         "outlier / shifted second configuration / constant first configuration / zeros) under all 300 settings, lemmas checked on "
-        "each. Every case is replayed once on benchstat.Collection. distinct_nontrivial = distinct judged cases in which an outlier "
-        "is rejected, or an old/new row reaches the gate without error, or a sort changes the first-appearance order, or a zero "
-        "mean is left out of a geomean, or a row/table is free or grouped.")
+        "each; 'wide' simulated collections fill tables of up to 15 rows (5 names x 3 label values). Every case is replayed once on "
+        "benchstat.Collection. distinct_nontrivial = distinct judged cases in which an outlier is rejected, or an old/new row "
+        "reaches the gate without a test error, or a sort changes the first-appearance order, or a zero mean is left out of a "
+        "requested geomean.")
 
 
 def nontrivial(c):
@@ -46,18 +47,16 @@ def nontrivial(c):
         if t["ordknown"] and t["order"] != list(range(1, len(t["rows"]) + 1)):
             return True
         for r in t["rows"]:
-            if not r["req"]:
-                return True
             for cell in r["cells"]:
                 if cell["has"] and len(cell["rv"]) != len(cell["vals"]):
                     return True
             if r["cmp"]["k"] == "cmp" and r["cmp"]["err"] == "":
                 return True
-        for ci, mem in enumerate(t["geo"]):
-            present = sum(1 for r in t["rows"] if r["cells"][ci]["has"])
-            if c["set"]["geo"] and len(mem) != present:
-                return True
-    return len(e["groups"]) > 1
+        if c["set"]["geo"]:
+            for ci, mem in enumerate(t["geo"]):
+                if len(mem) != sum(1 for r in t["rows"] if r["cells"][ci]["has"]):
+                    return True
+    return False
 
 
 def run(ctx):
